@@ -4,6 +4,7 @@ import (
 	"context"
 	"errors"
 	"fmt"
+	"strings"
 
 	corev1 "k8s.io/api/core/v1"
 	apierrors "k8s.io/apimachinery/pkg/api/errors"
@@ -26,10 +27,14 @@ const (
 	FaultLostAnswer            // call applied, error returned
 	FaultCrashBefore           // process stops before the call: not applied, every later call of this actor fails
 	FaultCrashAfter            // call applied, then the process stops
+	// FaultRejectTyped: as FaultReject, but the error is the API status error typical for the verb
+	// (AlreadyExists for create, Conflict for update/patch/status writes, TooManyRequests for delete,
+	// ServerTimeout for reads), which client code may treat specially (IgnoreAlreadyExists, IsConflict ...)
+	FaultRejectTyped
 )
 
 func (k FaultKind) String() string {
-	return [...]string{"none", "reject", "lost-answer", "crash-before", "crash-after"}[k]
+	return [...]string{"none", "reject", "lost-answer", "crash-before", "crash-after", "reject-typed"}[k]
 }
 
 // FaultFunc decides the fate of a call before it is applied.
@@ -138,8 +143,27 @@ func early(call *Call, k FaultKind) (bool, error) {
 	case FaultCrashBefore:
 		call.Err = ErrCrashed.Error()
 		return true, ErrCrashed
+	case FaultRejectTyped:
+		err := typedError(call)
+		call.Err = err.Error()
+		return true, err
 	}
 	return false, nil
+}
+
+// typedError is the API status error a real server would typically answer for a rejected call of this verb.
+func typedError(call *Call) error {
+	gr := schema.GroupResource{Resource: strings.ToLower(call.Kind) + "s"}
+	switch call.Verb {
+	case "create":
+		// with generateName: the generated name collided, nothing was stored
+		return apierrors.NewAlreadyExists(gr, call.Name)
+	case "update", "patch", "status-update", "status-patch":
+		return apierrors.NewConflict(gr, call.Name, errors.New("the object has been modified; please apply your changes to the latest version and try again"))
+	case "delete":
+		return apierrors.NewTooManyRequests("verif: throttled", 1)
+	}
+	return apierrors.NewServerTimeout(gr, call.Verb, 1)
 }
 
 func (s *simClient) Get(ctx context.Context, key client.ObjectKey, obj client.Object, opts ...client.GetOption) error {
